@@ -17,6 +17,7 @@
 -/
 import Proofs.GoTieArmorR
 import Proofs.GoTieWrap
+import Proofs.GoTieArmorW
 namespace AgeModel
 namespace Tie.C08
 open Extracted Armor
@@ -44,6 +45,20 @@ theorem writeWrapped_tie {δ ω : Type} (write : δ → Bytes → Go.M (Int × O
 theorem lastLineIsEmpty_tie {δ ω : Type} (w : format_WrappedBase64Encoder ω δ) (hw : 0 ≤ w.written) :
     format_WrappedBase64Encoder_LastLineIsEmpty w = .ok (decide (w.written.toNat % 64 = 0)) :=
   GoTie.lastLineIsEmpty_tie w hw
+
+/-! The armoring writer (`(*armoredWriter).Write` / `.Close`, armor/armor.go), translated on every
+run with the destination and the wrapped base64 encoder as abstract state (`GoTie.ArmorWEnv`): for
+EVERY sequence of writes — none at all included — followed by `Close`, on a destination that takes
+every write, what has reached the destination is `Armor.armor` of the concatenated input, and a
+second `Close` is refused without touching it. -/
+
+theorem armor_writer_tie {δ ω : Type} (E : GoTie.ArmorWEnv δ ω) (ww0 : ω) (d0 : δ)
+    (h0 : E.absI ww0 = [] ∧ E.absO ww0 = []) (ps : List Bytes) :
+    ∃ a1 a2, GoTie.armorWrites E ⟨false, false, ww0, d0⟩ ps = .ok (none, a1) ∧
+      Extracted.armor_armoredWriter_Close E.W E.Cl E.LE a1 = .ok (none, a2) ∧
+      E.absD a2.dst = E.absD d0 ++ Armor.armor ps.flatten ∧
+      Extracted.armor_armoredWriter_Close E.W E.Cl E.LE a2 = .ok (some ⟨"armor.(*armoredWriter).Close", 0, []⟩, a2) :=
+  GoTie.armor_writer_tie E ww0 d0 h0 ps
 
 end Tie.C08
 end AgeModel
